@@ -500,6 +500,14 @@ func monitorArcs(line string, rect image.Rectangle, cs []Call) (fails []Failure)
 		if x1 == x2 && y1 == y2 || math.IsNaN(rx+ry+x2+y2+float64(c.F[2])) {
 			continue // outside the quantifier (coincident end points, non-finite operands)
 		}
+		if c.Name == "a" {
+			// the relative end point is formed in the rasteriser's float32 pixel space (pen + scale·offset): an
+			// offset below the resolution of float32 at the pen leaves the end point ON the pen — coincident
+			// end points at the only resolution the interface has
+			if px+float32(sx)*c.F[3] == px && py+float32(sy)*c.F[4] == py {
+				continue
+			}
+		}
 		if len(delta) == 0 || len(delta) > 4 {
 			return bad("C06.at-most-four-cubics", fmt.Sprintf("%d segments", len(delta)))
 		}
